@@ -4,6 +4,7 @@ import (
 	"context"
 	"encoding/json"
 	"fmt"
+	"strings"
 	"testing"
 	"testing/synctest"
 	"time"
@@ -19,6 +20,47 @@ type c04Cfg struct {
 	Batch    int    `json:"batch"`
 	GasLimit uint32 `json:"gasLimit"`
 	Overhead uint32 `json:"overhead"`
+	// members of the off-chain configuration document that are ABSENT ("batch", "gasLimit", "overhead") or written as
+	// null: the document is partial and the documented defaults apply (the values above are then not on the wire)
+	Absent []string `json:"absent,omitempty"`
+	Null   []string `json:"null,omitempty"`
+	// other members of the document (lockout window, confirmations, sampling, log provider), verbatim
+	Extra string `json:"extra,omitempty"`
+}
+
+// doc renders the off-chain configuration document of a case.
+func (c c04Cfg) doc() []byte {
+	has := func(l []string, k string) bool {
+		for _, x := range l {
+			if x == k {
+				return true
+			}
+		}
+		return false
+	}
+	var parts []string
+	for _, m := range []struct{ key, name, val string }{
+		{"batch", "maxUpkeepBatchSize", fmt.Sprint(c.Batch)},
+		{"gasLimit", "gasLimitPerReport", fmt.Sprint(c.GasLimit)},
+		{"overhead", "gasOverheadPerUpkeep", fmt.Sprint(c.Overhead)},
+	} {
+		switch {
+		case has(c.Absent, m.key):
+		case has(c.Null, m.key):
+			parts = append(parts, fmt.Sprintf("%q:null", m.name))
+		default:
+			parts = append(parts, fmt.Sprintf("%q:%s", m.name, m.val))
+		}
+	}
+	if c.Extra != "" {
+		// the other members come first in every second document (member order must not matter)
+		if len(c.Extra)%2 == 0 {
+			parts = append([]string{c.Extra}, parts...)
+		} else {
+			parts = append(parts, c.Extra)
+		}
+	}
+	return []byte("{" + strings.Join(parts, ",") + "}")
 }
 type c04Input struct {
 	Cfg    c04Cfg `json:"cfg"`
@@ -59,6 +101,25 @@ func c04Gen(r *Rng) c04Input {
 			in.Cfg.Batch = -r.Intn(3)
 		}
 	}
+	if r.Chance(35) {
+		// a partial document: each of the three members is, independently, absent or null in about a third of these
+		for _, k := range []string{"batch", "gasLimit", "overhead"} {
+			switch r.Intn(6) {
+			case 0, 1:
+				in.Cfg.Absent = append(in.Cfg.Absent, k)
+			case 2:
+				in.Cfg.Null = append(in.Cfg.Null, k)
+			}
+		}
+		switch r.Intn(4) {
+		case 0:
+			in.Cfg.Extra = fmt.Sprintf(`"performLockoutWindow":%d,"minConfirmations":%d`, r.Range(-5, 3_600_000), r.Range(-1, 3))
+		case 1:
+			in.Cfg.Extra = fmt.Sprintf(`"targetProbability":"0.5","targetInRounds":%d,"logProviderConfig":{"blockRate":%d}`, r.Range(-1, 4), r.Range(0, 4))
+		case 2:
+			in.Cfg.Extra = `"logProviderConfig":{},"targetProbability":""`
+		}
+	}
 	n := 0
 	switch r.Intn(5) {
 	case 0:
@@ -79,6 +140,15 @@ func c04Gen(r *Rng) c04Input {
 	}
 	seen := map[string]bool{}
 	lim, ov := uint64(in.Cfg.GasLimit), uint64(in.Cfg.Overhead)
+	for _, k := range append(append([]string{}, in.Cfg.Absent...), in.Cfg.Null...) {
+		// the boundaries below are those of the EFFECTIVE limits
+		if k == "gasLimit" {
+			lim = 5_300_000
+		}
+		if k == "overhead" {
+			ov = 300_000
+		}
+	}
 	for len(in.Agreed) < n {
 		uid := uids[r.Intn(pool)]
 		res := genResult(r, uid, uint64(r.Range(10, 1000)))
@@ -136,11 +206,12 @@ func c04Gen(r *Rng) c04Input {
 
 // c04Run executes Reports on a factory-built plugin configured with in.Cfg.
 func c04Run(t *testing.T, in c04Input) c04Impl {
-	conf := fmt.Sprintf(`{"maxUpkeepBatchSize":%d,"gasLimitPerReport":%d,"gasOverheadPerUpkeep":%d}`, in.Cfg.Batch, in.Cfg.GasLimit, in.Cfg.Overhead)
-	// the factory has built an instance for ANOTHER config before (limits must be this instance's, not the first's)
+	conf := in.Cfg.doc()
+	// the factory has built an instance for ANOTHER config before, with every member set and none at its default
+	// (limits must be this instance's, not the first's — also those this instance's document leaves out)
 	decoy := &NodeOpts{N: 7, F: 2, OffchainConfig: []byte(fmt.Sprintf(`{"maxUpkeepBatchSize":%d,"gasLimitPerReport":%d,"gasOverheadPerUpkeep":%d}`,
-		in.Cfg.Batch%7+1, in.Cfg.GasLimit/2+1000, in.Cfg.Overhead+17))}
-	node := NewNode(t, NodeOpts{N: 4, F: 1, OffchainConfig: []byte(conf), Decoy: decoy})
+		(in.Cfg.Batch%7+7)%7+2, in.Cfg.GasLimit/2+1000, in.Cfg.Overhead+17))}
+	node := NewNode(t, NodeOpts{N: 4, F: 1, OffchainConfig: conf, Decoy: decoy})
 	time.Sleep(1500 * time.Millisecond) // let every service reach its running state (virtual time)
 	defer func() {
 		node.Close()
@@ -256,15 +327,21 @@ func c04Edge() []c04Input {
 		return in
 	}
 	out := []c04Input{
-		mk(c04Cfg{10, 1000, 0}, 5000, 10, 5000), // over-limit first: empty report before the fix
-		mk(c04Cfg{10, 1000, 0}, 5000),
-		mk(c04Cfg{1, 1000, 10}, 1, 1, 1),
-		mk(c04Cfg{3, 1000, 100}, 900, 900, 900, 100, 100, 100, 100),
-		mk(c04Cfg{5, 1000, 0}),
+		mk(c04Cfg{Batch: 10, GasLimit: 1000, Overhead: 0}, 5000, 10, 5000), // over-limit first: empty report before the fix
+		mk(c04Cfg{Batch: 10, GasLimit: 1000, Overhead: 0}, 5000),
+		mk(c04Cfg{Batch: 1, GasLimit: 1000, Overhead: 10}, 1, 1, 1),
+		mk(c04Cfg{Batch: 3, GasLimit: 1000, Overhead: 100}, 900, 900, 900, 100, 100, 100, 100),
+		mk(c04Cfg{Batch: 5, GasLimit: 1000, Overhead: 0}),
+	}
+	// partial documents: a member that is absent or null takes its documented default — whatever an earlier instance of
+	// the same factory was configured with
+	for _, ab := range [][]string{{"batch"}, {"gasLimit"}, {"overhead"}, {"batch", "gasLimit", "overhead"}} {
+		out = append(out, mk(c04Cfg{Batch: 4, GasLimit: 2_000_000, Overhead: 50_000, Absent: ab}, 900_000, 900_000, 900_000, 100_000, 100_000))
+		out = append(out, mk(c04Cfg{Batch: 4, GasLimit: 2_000_000, Overhead: 50_000, Null: ab, Extra: `"minConfirmations":1`}, 2_400_000, 2_400_000, 900_000, 100_000, 100_000))
 	}
 	// volume: one report whose encoding is well over 1 MB (batch 100, ~10 kB of perform data per upkeep)
 	for _, batch := range []int{100, 80} {
-		in := c04Input{Cfg: c04Cfg{batch, 5_300_000, 10}}
+		in := c04Input{Cfg: c04Cfg{Batch: batch, GasLimit: 5_300_000, Overhead: 10}}
 		for i := 0; i < 100; i++ {
 			res := genResult(r, genUpkeepID(r, i%3 == 0), 100)
 			res.GasAllocated = uint64(1000 + i)
@@ -283,15 +360,15 @@ func c04Edge() []c04Input {
 		for i := range gs {
 			gs[i] = spec.gas
 		}
-		out = append(out, mk(c04Cfg{10, 5_300_000, 300_000}, gs...))
-		out = append(out, mk(c04Cfg{0, 0, 0}, gs...))
+		out = append(out, mk(c04Cfg{Batch: 10, GasLimit: 5_300_000, Overhead: 300_000}, gs...))
+		out = append(out, mk(c04Cfg{}, gs...))
 	}
 	// 100 performables that each exceed the limit: exactly 100 reports allowed
 	big := make([]uint64, 100)
 	for i := range big {
 		big[i] = 6_000_000
 	}
-	out = append(out, mk(c04Cfg{10, 5_300_000, 300_000}, big...))
+	out = append(out, mk(c04Cfg{Batch: 10, GasLimit: 5_300_000, Overhead: 300_000}, big...))
 	return out
 }
 
